@@ -8,6 +8,7 @@ import FFS.Driver.AbiEntry
 import FFS.Driver.Eip712
 import FFS.Driver.Ffi
 import FFS.Driver.Keystore
+import FFS.Driver.FsWallet
 open Lean FFS FFS.Driver
 
 def dispatch (op : String) (j : Json) : Json :=
@@ -45,6 +46,7 @@ def dispatch (op : String) (j : Json) : Json :=
   | "ks.read" => opKsRead j
   | "ks.create" => opKsCreate j
   | "prim" => opPrim j
+  | "fsw.run" => opFswRun j
   | _ => Json.mkObj [("bad", "op")]
 
 partial def loop (hin : IO.FS.Stream) (hout : IO.FS.Stream) : IO Unit := do
